@@ -99,7 +99,7 @@ def _recov_cases(rng: random.Random, quick: bool) -> list[dict]:
     # forced interleaving (see props/c19.py gated_cases): the second consumer fails while the re-execution of the shared producer is RUNNING;
     # its recovery must use that re-execution: the producer's data was lost ONCE, it runs twice, not three times
     from sfv.props.c19 import gated_cases
-    for g in gated_cases(quick)[:1 if quick else None]:
+    for g in gated_cases(quick):        # RUNNING and FIREABLE windows
         cases.append(dict(g, name="c18-" + g["name"], trace_fm=True,
                           expect_why=("reexecuted-although-its-re-execution-was-under-way",
                                       "its output was lost once and the second consumer failed while its re-execution was under way")))
